@@ -64,6 +64,7 @@ func C02(p *load.Prog, r *oblig.Run) {
 	r.NotDecided = "equality of the built tree with a reference parser for all byte strings; the leniency modes' exact reference semantics; the re-encode fixpoint."
 	r.Assumptions = []string{"go/ssa's control-flow graph of Decode; callees resolved by type information"}
 	c02Rules(p, r)
+	c02ReaderStateless(p, r)
 	// the normal-form clause: the writer's line format and the encoder's traversal (C01's rules) are obligations here too
 	r.Rule("R01.b", "the line writer emits exactly 'level [@ptr@] TAG [value]'", 12)
 	c01Writer(p, r)
@@ -76,6 +77,7 @@ func C02(p *load.Prog, r *oblig.Run) {
 	c01Reader(p, r)
 	c01Registry(p, r)
 	c01RegistryInvariant(p, r)
+	c01DecodeErrors(p, r)
 }
 
 // c02Rules: the decoder-loop rules; C01 (encode/decode round trip) runs them
